@@ -98,9 +98,9 @@ Proof. exact c11_removed_when_due. Qed.
 Definition good : lora := mkLO 2 true false.
 Definition ex_pre : list op :=
   [ OCreate 1 7 1 (Some (5, 1, 0)); OOptIn 0 3 true; ODecorate 0 39; OBegin 10 [(0, good)]; OChannel 0;
-    OEnd true [0] [(0, mkEO true 2 0)]; OBegin 20 [] ].
+    OEnd true [0] [(0, mkEO true 2 0 false)]; OBegin 20 [] ].
 Definition ex_mid : list op :=
-  [ OEnd true [0] [(0, mkEO true 3 0)]; OBegin 40 []; OTimeout 0; OUpdate 0 1 None None None; OBegin 69 [] ].
+  [ OEnd true [0] [(0, mkEO true 3 0 false)]; OBegin 40 []; OTimeout 0; OUpdate 0 1 None None None; OBegin 69 [] ].
 
 Example C11_ex_stop :
   let s1 := reach 50 (ex_pre ++ [ORemove 0 1]) in
